@@ -124,6 +124,8 @@ class Case:
     def label(self):
         """`on=` of value violations: the focus arm, unless a non-focus kind of a multi-site
         program fails on its own (lazy single-site diagnosis)."""
+        if self.arm[2].get("as_normal_reparam"):
+            return "normal_reparam-vector"
         if self.diag is not None:
             k = self.diag.culprit(self)
             if k is not None and k != self.arm[1]:
